@@ -171,6 +171,7 @@ class Run:
         env = base_env()
         env.update({"VERIF_TIER": self.tier, "VERIF_STATS_FILE": self.stats, "VERIF_HASH_FILE": self.hashes,
                     "VERIF_SEED_EFFECTIVE": str(eff), "VERIF_WORK": self.wdir, "VERIF_SHARD": str(self.shard),
+                    "VERIF_SHARDS": str(tcfg.get("shards", 1)),
                     "VERIF_KNOWN_CLASSES": known_classes(self.cid), "VERIF_ROOT": VERIF,
                     "TMPDIR": os.path.join(self.wdir, "tmp")})
         os.makedirs(env["TMPDIR"], exist_ok=True)
